@@ -31,6 +31,10 @@ CHECKS = {
                 text="Every signature / output-count / port-kind method of ops.py is verified against the statement's table: Input/Output, DFG (outer = body), CFG, Conditional (sum then other inputs; case i gets variant i + others), Case, TailLoop (outer and body with Sum(just-inputs, just-outputs) + rest), DataflowBlock (successor rows, control-flow ports), Tag and sugar tags, MakeTuple/UnpackTuple inverse (through ext_op -> OpDef.instantiate -> cached signature), CallIndirect, Call and LoadFunc over the instantiated signature with the function port after the value inputs, Const/LoadConst agreement, FuncDefn/FuncDecl function ports, the order port in both directions for every dataflow op, _sig_port_type / port_type = payload of the kind. Three genuine defects were found by failing obligations + replays and repaired (Call arity from the polymorphic body, order-port kinds of Call/LoadConst/LoadFunc, LoadFunc.num_out being a Field). Hugr.port_kind/port_type in base.py and std registered ops are covered by the bounded table only -> category other.",
                 note=TRUST + "; interface contracts for DataflowOp.outer_signature and Value.type_; _load_extension trusted with ground-checked prelude facts.",
                 technique="contract-based deductive verification (per-class postconditions from the typing table), z3 cross-checked; bounded table check for base.py wrappers"),
+    "C14": dict(cat="other", design="5/C14",
+                text="Proved from the real source: val.Sum.type_ reports its sum type; each helper (Tuple, Some, None_, Left, Right, UnitSum, bool_value) builds the stated sum type with the right tag and satisfies the inhabitation predicate transcribed from Const::validate (tag in range, field count, field i reports exactly the type in the tagged row); Extension.type_; IntVal / FloatVal / StringVal / ArrayVal / ListVal / StaticArrayVal report the matching standard type (int of the given width, array sized by the number of elements, ...), name their defining extension and embed elements as complete values with the element type; Const offers val.type_() on its static port and LoadConst is typed consistently (shared with C06). val.Function.type_ and DfBase.load are covered by the bounded run only -> category other.",
+                note=TRUST + "; interface contracts Value.type_ / _to_serial_root; _load_extension trusted with ground-checked facts; invertible Any injection.",
+                technique="contract-based deductive verification (constructor postconditions + inhabitation predicate), z3 cross-checked; bounded value-expression enumeration against an independent oracle"),
 }
 
 NOT_APPLICABLE = {
